@@ -439,10 +439,19 @@ func (p *prog) gen() *step {
 		st.desc = "ReadFrom(" + sp.String() + ")"
 		st.run = func(b buffer) (res string, _ []byte) {
 			rd := sp.readerFor(b)
-			n, err := b.ReadFrom(rd)
+			var from io.Reader = rd
+			var wt *srcWT
+			if sp.withWriterTo {
+				wt = &srcWT{src: rd}
+				from = wt
+			}
+			n, err := b.ReadFrom(from)
 			sib := ""
+			if wt != nil {
+				sib = fmt.Sprintf(" WriteTo-calls=%d", wt.wtCalls)
+			}
 			if rd.sib != nil {
-				sib = " sibling=" + fmtBytes(rd.sib.Bytes())
+				sib += " sibling=" + fmtBytes(rd.sib.Bytes())
 			}
 			return fmt.Sprintf("n=%d err=%s srcpos=%d%s", n, errText(err), rd.pos, sib), nil
 		}
@@ -452,8 +461,17 @@ func (p *prog) gen() *step {
 		st.desc = "WriteTo(" + sp.String() + ")"
 		st.run = func(b buffer) (string, []byte) {
 			w := sp.writer()
-			n, err := b.WriteTo(w)
-			return fmt.Sprintf("n=%d err=%s sinkcalls=%d got=%s", n, errText(err), w.calls, fmtBytes(w.got)), w.got
+			var to io.Writer = w
+			rfCalls := 0
+			if sp.withReaderFrom {
+				rf := &sinkRF{sink: w}
+				to = rf
+			}
+			n, err := b.WriteTo(to)
+			if rf, ok := to.(*sinkRF); ok {
+				rfCalls = rf.rfCalls
+			}
+			return fmt.Sprintf("n=%d err=%s sinkcalls=%d readfrom-calls=%d got=%s", n, errText(err), w.calls, rfCalls, fmtBytes(w.got)), w.got
 		}
 	case opLen:
 		st.observer = true
@@ -534,6 +552,7 @@ func (p *prog) genSrc(pk peek, L int, invalid bool) *srcSpec {
 	if r.Intn(6) == 0 {
 		sp.nested = true
 	}
+	sp.withWriterTo = r.Intn(6) == 0
 	return sp
 }
 
@@ -559,6 +578,7 @@ func (p *prog) genSink(L int, invalid bool) *sinkSpec {
 	case 5:
 		sp.errFull = true
 	}
+	sp.withReaderFrom = r.Intn(6) == 0
 	return sp
 }
 
